@@ -3,6 +3,7 @@
 #include <mustache/utils/logger.hpp>
 #include <mustache/utils/profiler.hpp>
 
+#include <deque>
 #include <map>
 #include <mutex>
 
@@ -18,7 +19,8 @@ namespace {
         };
         std::map<std::string, Element> type_map;
         IdType next_component_id{IdType::make(0)};
-        std::vector<ComponentInfo> components_info;
+        // a deque: componentInfo() hands out references that must survive later registrations
+        std::deque<ComponentInfo> components_info;
         mutable std::mutex mutex;
 
         IdType getId(const ComponentInfo& info) {
@@ -27,10 +29,11 @@ namespace {
             const auto find_res = type_map.find(info.name);
 
             if (find_res != type_map.end()) {
+                // already registered: its entry is complete and may be in use by other threads, leave it alone
                 if(components_info.size() <= find_res->second.id.toInt()) {
                     components_info.resize(find_res->second.id.toInt() + 1);
+                    components_info[find_res->second.id.toInt()] = find_res->second.info;
                 }
-                components_info[find_res->second.id.toInt()] = find_res->second.info;
                 return find_res->second.id;
             }
             if (!info.default_value.empty() && info.default_value.size() != info.size) {
